@@ -155,17 +155,35 @@ void tokenizer_free(TOKEN_SCANNER scanner)
 
 YY_BUFFER_STATE tokenizer_buf(TOKEN_SCANNER scanner)
 {
-  char str[1024];
   /* check the reader exists */
   if (scanner->reader != 0)
   {
-    int n = 0;
-    scanner->reader(scanner->handle, str, &n, 1023);
-    if (n > 0)
+    /* A buffer is scanned as a whole, so it must not end in the middle of a
+       token: chunks are gathered until the end of the line or of the stream */
+    YY_BUFFER_STATE buf = 0;
+    char * str = 0;
+    int len = 0;
+    for (;;)
     {
-      str[n] = '\0';
-      return yy_scan_string(str, scanner->scanner);
+      int n = 0;
+      char * tmp = (char*) realloc(str, len + 1024);
+      if (tmp == 0)
+        break;
+      str = tmp;
+      scanner->reader(scanner->handle, str + len, &n, 1023);
+      if (n <= 0)
+        break;
+      len += n;
+      if (str[len - 1] == '\n')
+        break;
     }
+    if (len > 0)
+    {
+      str[len] = '\0';
+      buf = yy_scan_string(str, scanner->scanner);
+    }
+    free(str);
+    return buf;
   }
   return 0;
 }
